@@ -813,6 +813,24 @@ def parse_projection(text):
     return decl, structs, inits
 
 
+def intres_violation(text):
+    """C13, end to end: the vtable entry of every method marked to use integer results returns the
+    integer code (`-> i32`); entries of unmarked methods do not."""
+    _, structs, _ = parse_projection(text)
+    for line in text.splitlines():
+        if not line.startswith("intres "):
+            continue
+        name, _, ms = line[7:].partition(": ")
+        fields = dict(structs.get(name + "Vtbl", []))
+        for m in ms.split():
+            sig = fields.get(m)
+            if sig is None:
+                continue
+            if not sig.replace(" ", "").endswith("->i32"):
+                return {"class": "intres.entry_not_coded", "site": "%s::%s" % (name, m), "msg": "method %s::%s is marked to use integer results, but its vtable entry is `%s`: it does not return the integer code" % (name, m, sig[-120:])}
+    return None
+
+
 def order_violation(text):
     decl, structs, inits = parse_projection(text)
     for t, methods in sorted(decl.items()):
@@ -875,6 +893,9 @@ def phase_expander(prop, tier, seed, report):
     cargo_build("expsim", False)
     k = 8 if tier == "quick" else 96
     pn = 6 if tier == "quick" else 64
+    if prop == "C13":
+        # the signature oracle needs the projection, not its stability: a few hash seeds suffice
+        k, pn = (2, 0) if tier == "quick" else (8, 4)
     t0 = time.time()
     jobs = []
     for src in EXP_INPUTS:
@@ -896,7 +917,7 @@ def phase_expander(prop, tier, seed, report):
         digests.add(hashlib.sha256((name + out).encode()).hexdigest())
         if name not in ref:
             ref[name] = (out, hs, perm)
-            ov = order_violation(out)
+            ov = intres_violation(out) if prop == "C13" else order_violation(out)
             if ov:
                 ov["case"] = {"source": name, "hash_seed": hs, "permute": perm}
                 viol.append(ov)
@@ -945,7 +966,7 @@ def replay_expander(prop, doc, path):
     if out is None:
         v = {"class": "expand.rejects_corpus", "msg": err}
     else:
-        v = order_violation(out)
+        v = intres_violation(out) if prop == "C13" else order_violation(out)
         if v is None and (c.get("reference_hash_seed") is not None or c.get("permute") is not None):
             ref, _ = run_expsim(src, c.get("reference_hash_seed", c["hash_seed"]), None)
             if ref != out:
